@@ -232,3 +232,149 @@ pub fn json_struct_variants(doc: &[u8]) -> Vec<(String, Vec<u8>)> {
     }
     out
 }
+
+/// Byte spans of the members of every object of a JSON text: per object (offset just after its
+/// '{', offset of its '}', member spans [start, end) covering `"key" : value` without commas).
+/// `None` when the text is not well-formed enough to be walked.
+fn json_object_spans(doc: &[u8]) -> Option<Vec<(usize, usize, Vec<(usize, usize)>)>> {
+    fn ws(d: &[u8], mut i: usize) -> usize {
+        while i < d.len() && matches!(d[i], b' ' | b'\t' | b'\n' | b'\r') {
+            i += 1;
+        }
+        i
+    }
+    fn string(d: &[u8], mut i: usize) -> Option<usize> {
+        if d.get(i) != Some(&b'"') {
+            return None;
+        }
+        i += 1;
+        while i < d.len() {
+            match d[i] {
+                b'\\' => i += 2,
+                b'"' => return Some(i + 1),
+                _ => i += 1,
+            }
+        }
+        None
+    }
+    fn value(d: &[u8], i: usize, depth: usize, out: &mut Vec<(usize, usize, Vec<(usize, usize)>)>) -> Option<usize> {
+        if depth > 200 {
+            return None;
+        }
+        let i = ws(d, i);
+        match *d.get(i)? {
+            b'"' => string(d, i),
+            b'{' => {
+                let open = i + 1;
+                let mut members = Vec::new();
+                let mut j = ws(d, open);
+                if d.get(j) == Some(&b'}') {
+                    out.push((open, j, members));
+                    return Some(j + 1);
+                }
+                loop {
+                    let start = ws(d, j);
+                    let k_end = string(d, start)?;
+                    let c = ws(d, k_end);
+                    if d.get(c) != Some(&b':') {
+                        return None;
+                    }
+                    let v_end = value(d, c + 1, depth + 1, out)?;
+                    members.push((start, v_end));
+                    j = ws(d, v_end);
+                    match *d.get(j)? {
+                        b',' => j += 1,
+                        b'}' => {
+                            out.push((open, j, members));
+                            return Some(j + 1);
+                        }
+                        _ => return None,
+                    }
+                }
+            }
+            b'[' => {
+                let mut j = ws(d, i + 1);
+                if d.get(j) == Some(&b']') {
+                    return Some(j + 1);
+                }
+                loop {
+                    let e = value(d, j, depth + 1, out)?;
+                    j = ws(d, e);
+                    match *d.get(j)? {
+                        b',' => j += 1,
+                        b']' => return Some(j + 1),
+                        _ => return None,
+                    }
+                }
+            }
+            _ => {
+                let mut j = i;
+                while j < d.len() && !matches!(d[j], b',' | b'}' | b']' | b' ' | b'\t' | b'\n' | b'\r') {
+                    j += 1;
+                }
+                (j > i).then_some(j)
+            }
+        }
+    }
+    let mut out = Vec::new();
+    let end = value(doc, 0, 0, &mut out)?;
+    (ws(doc, end) == doc.len()).then_some(out)
+}
+
+/// Member-level faults of a JSON text that keep it well-formed JSON and that a tree of
+/// `serde_json::Value` cannot express: a member repeated, a member moved to the front or the end
+/// of its object (so `_kind` comes after the members it qualifies), a foreign member added in
+/// front or at the end. Returns (description, document) pairs; empty when the text cannot be walked.
+pub fn json_member_variants(doc: &[u8]) -> Vec<(String, Vec<u8>)> {
+    const FOREIGN: &[&str] = &["\"zz\":1", "\"_kind\":\"marker\"", "\"val\":null", "\"A\":{}", "\"\":\"\""];
+    let Some(objects) = json_object_spans(doc) else { return Vec::new() };
+    let mut out = Vec::new();
+    let splice = |at: usize, text: &[u8]| -> Vec<u8> {
+        let mut v = doc[..at].to_vec();
+        v.extend_from_slice(text);
+        v.extend_from_slice(&doc[at..]);
+        v
+    };
+    for (oi, (open, close, members)) in objects.iter().enumerate() {
+        for (fi, f) in FOREIGN.iter().enumerate() {
+            let front = if members.is_empty() { f.to_string() } else { format!("{f},") };
+            out.push((format!("member-add obj{oi} front #{fi}"), splice(*open, front.as_bytes())));
+            if !members.is_empty() {
+                out.push((format!("member-add obj{oi} end #{fi}"), splice(*close, format!(",{f}").as_bytes())));
+            }
+        }
+        for (mi, (s, e)) in members.iter().enumerate() {
+            let m = &doc[*s..*e];
+            let mut dup = vec![b','];
+            dup.extend_from_slice(m);
+            out.push((format!("member-repeat obj{oi}.{mi} at end"), splice(*close, &dup)));
+            let mut dupf = m.to_vec();
+            dupf.push(b',');
+            out.push((format!("member-repeat obj{oi}.{mi} in front"), splice(*open, &dupf)));
+            if members.len() > 1 {
+                // the object's members in another order: member mi last / first
+                for last in [true, false] {
+                    if (last && mi + 1 == members.len()) || (!last && mi == 0) {
+                        continue;
+                    }
+                    let mut order: Vec<usize> = (0..members.len()).filter(|k| *k != mi).collect();
+                    if last {
+                        order.push(mi);
+                    } else {
+                        order.insert(0, mi);
+                    }
+                    let mut v = doc[..*open].to_vec();
+                    for (n, k) in order.iter().enumerate() {
+                        if n > 0 {
+                            v.push(b',');
+                        }
+                        v.extend_from_slice(&doc[members[*k].0..members[*k].1]);
+                    }
+                    v.extend_from_slice(&doc[*close..]);
+                    out.push((format!("member-move obj{oi}.{mi} {}", if last { "last" } else { "first" }), v));
+                }
+            }
+        }
+    }
+    out
+}
